@@ -42,6 +42,11 @@ def M_engine_decode(it, ctx, args, st):
         yield s2, (it.ok(Agg('DecodedBytes', (s,))) if good else it.err(Agg('base64::DecodeError', ())))
 
 
+def M_engine_encode(it, ctx, args, st):
+    """Engine::encode(bytes) -> String: the Base64 text of those bytes under that engine (opaque token)"""
+    yield st, Agg('B64Text', (st.deref_all(args[0]), sval(st, args[1])))
+
+
 def M_format_with_items(it, ctx, args, st):
     items = args[1]
     yield st, Agg('chrono::format::DelayedFormat', (st.deref_all(args[0]), items))
@@ -87,6 +92,8 @@ MODELS = [
     (r'<.* as std::fmt::Display>::fmt', M_display_fmt, lambda it, ctx, args, st: not ty_str(ctx.self_ty).lstrip('&').startswith(('conjure_object::', 'verif_types::'))),
     (r'base64::display::Base64Display::<.*>::new|base64::display::Base64Display::new', M_base64_display_new),
     (r'<base64::engine::GeneralPurpose as base64::Engine>::decode::<.*>', M_engine_decode),
+    (r'<base64::engine::GeneralPurpose as base64::Engine>::encode::<.*>', M_engine_encode),
+    (r'<std::string::String as std::ops::Deref>::deref', lambda it, ctx, args, st: iter([(st, args[0])]), lambda it, ctx, args, st: isinstance(st.deref_all(args[0]), Agg) and st.deref_all(args[0]).name == 'B64Text'),
     (r'chrono::DateTime::<.*>::format_with_items::<.*>', M_format_with_items),
     (r'std::iter::once::<.*>', M_iter_once),
     (r'chrono::DateTime::<chrono::FixedOffset>::parse_from_rfc3339', M_parse_rfc3339),
